@@ -53,7 +53,7 @@ def make_forms(units, tier):
     return forms
 
 
-def write_table_module(units, forms, extra=""):
+def write_table_module(units, forms, extra="", pair_all=False):
     """spec/_gen_UnitTable.tla (deterministic content, atomic replace)"""
     idx = {(f["text"]): i + 1 for i, f in enumerate(forms)}
     def first_form(unit, text=None):
@@ -79,6 +79,13 @@ def write_table_module(units, forms, extra=""):
     lines.append("Partners == {%s}" % ", ".join(map(str, partners)))
     lines.append("Partners2 == {%s}" % ", ".join(map(str, partners2)))
     lines.append("SumPartners == {%s}" % ", ".join(map(str, sum_partners)))
+    # C04/C11/C12: second operands of pairs (all unprefixed canonical forms; with prefixes in the thorough tier)
+    pair_partners = sum_partners if not pair_all else list(range(1, len(forms) + 1))
+    lines.append("PairPartners == {%s}" % ", ".join(map(str, pair_partners)))
+    compound = [x for x in (first_form("metre"), first_form("inch"), idx.get("km"), first_form("mile"), first_form("second"), first_form("hour"),
+                            first_form("gram"), first_form("pound"), first_form("litre"), first_form("gallon"), first_form("byte"), first_form("bit"),
+                            first_form("joule"), first_form("calorie"), first_form("degree"), first_form("radian")) if x]
+    lines.append("CompoundPartners == {%s}" % ", ".join(map(str, compound)))
     if extra:
         lines.append(extra)
     lines.append("====")
